@@ -396,7 +396,37 @@ let run_av (suite : string) (vf : string) (auth : string) (cc : string) : string
 (* AH: two connections of one client configuration; the models have no state shared between connections, so the second
    connection is judged on its own *)
 let rec run_ah (suite : string) (scenario : string) : string =
-  if String.length scenario > 5 && String.sub scenario 0 5 = "cache" then run_ah_cache suite scenario else run_ah_ca suite scenario
+  if String.length scenario > 5 && String.sub scenario 0 5 = "cache" then run_ah_cache suite scenario
+  else if String.length scenario > 7 && String.sub scenario 0 7 = "resume_" then run_ah_resume suite scenario
+  else run_ah_ca suite scenario
+(* C08 round-6 closure: resume_<change>_a<auth>: a GMSSL client with a session cache, servers with tickets on sharing the
+   ticket key; connection 2 is run with the session connection 1 left behind against the server configuration as it is
+   THEN (s_client_trusted = the certificates Verify accepts under the current Time / ClientCAs; s_auth = current policy).
+   obs: <s1> <s2> <c2> <server resumed 2> <server VerifiedChains 2> *)
+and run_ah_resume (suite : string) (scenario : string) : string =
+  let (change, a1) = match String.split_on_char '_' scenario with
+    | [_; ch; a] when String.length a = 2 -> (ch, int_of_string (String.sub a 1 1))
+    | _ -> failwith ("bad resume scenario " ^ scenario) in
+  let cfg = parse_cfg (Printf.sprintf "auth=%d,su=%s,cc=1,vf=1,tk=1,np=0" a1 suite) in
+  let cert1 = match change with "tighten" -> Some (c_uauth, k_uauth) | "refused" -> None | _ -> Some (c_auth, k_auth) in
+  let cert2 = match change with "refused" -> Some (c_uauth, k_uauth) | _ -> cert1 in
+  let a2 = match change with "tighten" -> a1 + 2 | "refused" -> 4 | _ -> a1 in
+  let trusted2 = match change with "expired" | "newca" -> [] | _ -> [c_auth] in
+  let s1 = { (server_config GMOnly cfg ~own_suites:false) with s_client_trusted = [c_auth] } in
+  let c1 = { (client_config true cfg None (r_client, r_pms, r_sid, r_ceph)) with c_cert = cert1 } in
+  let ((cst, cstat), (sst, sstat)) = pair_run c1 s1 in
+  let session =
+    match cstat, sstat with
+    | PDone, PDone when sst.ss_ticket ->
+      Some ((encryptTicket ticket_key (session_state sst.ss_vers sst.ss_suite sst.ss_master sst.ss_peer), sst.ss_suite),
+            cst.cs_master)
+    | _ -> None in
+  let c2 = { (client_config true cfg session (n 41, n 42, n 43, n 44)) with c_cert = cert2 } in
+  let s2 = { s1 with s_auth = n a2; s_client_trusted = trusted2; s_rand = n 51; s_eph = n 52; s_fresh = n 53 } in
+  let ((_, cstat2), (sst2, sstat2)) = pair_run c2 s2 in
+  let has2 = (match cert2 with Some _ -> true | None -> false) in
+  Printf.sprintf "%s %s %s %d %d" (show_pstat sstat) (show_pstat sstat2) (show_pstat cstat2)
+    (if sstat2 = PDone && sst2.ss_resumed then 1 else 0) (if sstat2 = PDone && a2 >= 3 && has2 then 1 else 0)
 (* three connections sharing a session cache: the first full, the second resumed; the third asks for a name - the models
    have no cache keyed by name: a session is offered only for the identity it was established with, so the third is a
    full handshake judged on its own: the certificate is not valid for the other name *)
